@@ -61,7 +61,10 @@ def two_roll_cases(chk, rng):
             if fmask.any():
                 if np.abs(up[fmask][:, 1] - gap / 2).max() > 1e-12 * scale or np.abs(lo[::-1][fmask][:, 1] + gap / 2).max() > 1e-12 * scale:
                     return chk.fail('two-gap', f"{name}: faces are not separated by exactly the gap {gap}", data)
-            h = rp.height
+            try:
+                h = rp.height
+            except Exception as e:      # noqa
+                return chk.fail('two-height', f"{name}: two-roll pass with gap {gap!r}: reading the height raises {type(e).__name__}: {str(e)[:100]}", data)
             if abs(h - (gap + 2 * g.depth)) > 1e-12 * scale:
                 return chk.fail('two-height', f"{name}: height {h} != gap + 2*depth = {gap + 2 * g.depth}", data)
             if abs(up[:, 1].max() - lo[:, 1].min() - h) > 1e-9 * scale and 'indent' not in kw:
